@@ -23,7 +23,7 @@ from ..tlc import MachineryError, SPECS, require_coverage, run_tlc, write_cfg  #
 from pdfminer.pdfdocument import PDFDocument  # noqa: E402
 from pdfminer.pdfparser import PDFParser, PDFStreamParser  # noqa: E402
 from pdfminer.pdftypes import PDFObjRef  # noqa: E402
-from pdfminer.psparser import PSBaseParser, PSEOF, PSKeyword, PSLiteral  # noqa: E402
+from pdfminer.psparser import LIT, PSBaseParser, PSEOF, PSKeyword, PSLiteral  # noqa: E402
 
 SPEC = os.path.join(SPECS, "obj", "MC_PSObj.tla")
 TRACE_SPEC = os.path.join(SPECS, "obj", "PSObjTrace.tla")
@@ -47,8 +47,10 @@ def proj(o):
     if isinstance(o, bytes):
         return ("str", o)
     if isinstance(o, PSLiteral):
+        # a name is its bytes; the library's convention on top of that: .name is a str when the bytes are UTF-8 and bytes
+        # otherwise, and name objects are interned (the whole library compares names by identity)
         n = o.name
-        return ("name", n if isinstance(n, bytes) else n.encode("utf-8"))
+        return ("name", n if isinstance(n, bytes) else n.encode("utf-8"), "str" if isinstance(n, str) else "bytes", LIT(n) is o)
     if isinstance(o, PSKeyword):
         return ("kw", o.name)
     if isinstance(o, PDFObjRef):
@@ -71,7 +73,15 @@ def conv(j):
         return ("num", float(v[0]), "int")
     if k == "real":
         return ("num", float("%de-%d" % (v[0], v[1])), "real")
-    if k in ("str", "name", "kw"):
+    if k == "name":
+        b = bytes(v)
+        try:
+            b.decode("utf-8")
+            rep = "str"
+        except UnicodeDecodeError:
+            rep = "bytes"
+        return ("name", b, rep, True)
+    if k in ("str", "kw"):
         return (k, bytes(v))
     if k == "ref":
         return ("ref", v[0])
